@@ -8,6 +8,7 @@ import (
 	"sort"
 	"strconv"
 	"syscall"
+	"verif/internal/values"
 
 	"verif/internal/checks"
 	"verif/internal/plugin"
@@ -129,6 +130,10 @@ func run(scratch string) int {
 	}
 	r := report.New(id, tier, seed)
 	c := &checks.Ctx{TB: tb, R: r, Tier: tier, Seed: seed, Scratch: scratch}
+	values.DefaultCombos = 4
+	if tier == "thorough" {
+		values.DefaultCombos = 32
+	}
 	func() {
 		defer func() {
 			if p := recover(); p != nil {
